@@ -37,7 +37,13 @@ def numeval(r, env):
         else:
             return None
     try:
-        return alg.subst(r, sub).as_fraction()
+        # function atoms first (their values were computed with the symbols they contain), then the symbols: a single pass would also
+        # substitute the symbols INSIDE the function atoms and rebuild them as new, unvalued atoms
+        fns = dict((i, v) for i, v in sub.items() if alg.TABLE.atoms[i].kind != 'sym')
+        syms_ = dict((i, v) for i, v in sub.items() if alg.TABLE.atoms[i].kind == 'sym')
+        r2 = alg.subst(r, fns) if fns else r
+        r2 = alg.subst(r2, syms_) if syms_ else r2
+        return r2.as_fraction()
     except ZeroDivisionError:
         return None
 
@@ -121,7 +127,7 @@ def critical_values(cond, sid):
     return out
 
 
-def decide_guard(cond, domain, integer=()):
+def decide_guard(cond, domain, integer=(), constraint=None, extra_points=None):
     """domain: {symbol name: (lo, hi)} closed box.  Returns ('fires', witness dict) if the guard is true somewhere in the box,
     ('never', None) if it is false on every sample of the piecewise-constant decomposition, ('unknown', reason) otherwise."""
     if isinstance(cond, Bool):
@@ -154,6 +160,8 @@ def decide_guard(cond, domain, integer=()):
             pts.append(t)
             if k + 1 < len(crit):
                 pts.append((t + crit[k + 1]) / 2)
+        if extra_points and name in extra_points:
+            pts = sorted(set(pts) | set(F(x) for x in extra_points[name] if lo <= F(x) <= hi))
         if name in integer:
             pts = sorted(set(F(int(p)) for p in pts if lo <= int(p) <= hi) | set(F(int(p) + 1) for p in pts if lo <= int(p) + 1 <= hi))
         grids[name] = pts
@@ -164,6 +172,9 @@ def decide_guard(cond, domain, integer=()):
     if total > 20000:
         return 'unknown', 'too many pieces (%d)' % total
     for combo in itertools.product(*[grids[n] for n in names]):
+        if constraint is not None and not constraint(dict(zip(names, combo))):
+            # the box is the hull of the domain; the relation between its symbols (an explicit zone near the longitude) cuts it down
+            continue
         env = dict((syms[n], v) for n, v in zip(names, combo))
         v = numeval(cond, env)
         if v is None:
@@ -173,7 +184,7 @@ def decide_guard(cond, domain, integer=()):
     return 'never', None
 
 
-def guard_rule(rep, rule, func, raise_conds, domain, what, where_fn, integer=(), own_only=True, skip=None, suffix=''):
+def guard_rule(rep, rule, func, raise_conds, domain, what, where_fn, integer=(), own_only=True, skip=None, suffix='', constraint=None, extra_points=None):
     """one instance per raising test of `func` (and of the functions it inlines when own_only is False)"""
     n = 0
     seen = {}
@@ -187,7 +198,7 @@ def guard_rule(rep, rule, func, raise_conds, domain, what, where_fn, integer=(),
         txt = stmt_text(node.test)[:60]
         seen[txt] = seen.get(txt, 0) + 1
         key = '%s::%s::%s::raise-if(%s)#%d%s' % (rule, func.module.relpath, func.qualname, txt, seen[txt], suffix)
-        verdict, info = decide_guard(cond, domain, integer)
+        verdict, info = decide_guard(cond, domain, integer, constraint, extra_points)
         w = where_fn(node)
         if verdict == 'never':
             rep.holds(rule, key, w, 'this test never fires inside %s' % what)
